@@ -129,7 +129,7 @@ def oblig(ctx, m):
     else:
         m.stuck('C08:L4', 'KahanSum::value paths')
     # L3: merging two registers (each with a rounding-level compensation): the maintained quantity of the result is the sum of the
-    # maintained quantities up to 4u * the SMALLER operand (+ 4 * the compensations, which enter at full size) - on every path of the merge.
+    # maintained quantities up to 8u * the SMALLER operand + 4u * the compensations + 8u^2 |result| - on every path of the merge.
     # A first-order defect in the LARGER operand would let a chain of merges accumulate O(n u) error.
     fm = [f for f in m.fns if f.short == 'add_assign' and 'utils' in f.name and len(f.args) == 2 and 'KahanSum' in f.args[1][1]]
     if len(fm) == 1:
@@ -144,7 +144,10 @@ def oblig(ctx, m):
               pre = '(assert (bvsle (bvshl %s (_ bv%d 64)) (bvmul (_ bv2 64) %s)))\n(assert (bvsle (bvshl %s (_ bv%d 64)) (bvmul (_ bv2 64) %s)))' % (ABS('c_fx'), sb, ABS('s_fx'), ABS('rc_fx'), sb, ABS('rs_fx'))
               d = '(bvsub (bvsub (bvsub S_fx C_fx) (bvsub s_fx c_fx)) (bvsub rs_fx rc_fx))'
               mn = '(ite (bvsle %s %s) %s %s)' % (ABS('s_fx'), ABS('rs_fx'), ABS('s_fx'), ABS('rs_fx'))
-              body = pre + '\n(assert (not (bvsle (bvshl %s (_ bv%d 64)) (bvadd (bvmul (_ bv4 64) %s) (bvshl (bvmul (_ bv4 64) (bvadd %s %s)) (_ bv%d 64))))))' % (ABS(d), sb, mn, ABS('c_fx'), ABS('rc_fx'), sb)
+              # |defect| <= 8u min(|s|,|rs|) + 4u(|c|+|rc|) + 8u^2|S|, scaled by 2^(2 sb): the compensation of the SMALLER register may enter at full
+              # size (value() vs maintained-quantity sign convention; it is <= 2u min by the premise), the accumulator's only at O(u)
+              body = pre + '\n(assert (not (bvsle (bvshl %s (_ bv%d 64)) (bvadd (bvshl (bvadd (bvmul (_ bv8 64) %s) (bvmul (_ bv4 64) (bvadd %s %s))) (_ bv%d 64)) (bvmul (_ bv8 64) %s)))))' % (
+                  ABS(d), 2 * sb, mn, ABS('c_fx'), ABS('rc_fx'), sb, ABS('S_fx'))
               for cu in itertools.product(range(2 ** eb - 1), repeat=2):
                   jobs.append(('C08:L3:merge-defect-first-order-in-the-smaller-operand:F(%d,%d)' % (eb, sb) + ('' if i == 0 else ':path%d' % i),
                                build(eb, sb, ['s', 'c', 'rs', 'rc'], {'S': S_, 'C': C_}, r.pc, body, cube=dict(zip(['s', 'rs'], cu))), 180, 'C08:L3'))
@@ -252,16 +255,18 @@ def reg_ident(ctx, m, paths):
             ctx.record(nm, 'M', {'violation': 'violated', 'known': 'known-finding', 'inconclusive': 'inconclusive'}[v], key=nm, detail=why[:200])
         elif all(r.kind == 'return' for r in rs):
             # not the same DAG as `+=` (e.g. implemented through the register merge): decide it semantically. On every path of `a + x`, from a
-            # register with a rounding-level compensation: the maintained quantity absorbs x up to 4u|x| + 4|c| (first-order in the ADDEND only,
-            # so a stream folded with `+` stays O(u sum|x|)), and the new compensation is again rounding-level.
+            # register with a rounding-level compensation: the maintained quantity absorbs x up to 8u|x| + 4u|c| + 8u^2|S| (first-order in the
+            # ADDEND only; the old compensation may only enter at O(u): an operator that drops it - first-order |c| ~ u|sum| per step - is
+            # refuted), so a stream folded with `+` stays O(u sum|x|) + O(n u^2); and the new compensation is again rounding-level.
             ctx.record(nm + ':dag', 'M', 'note', detail='`KahanSum + x` is not the DAG of `+=` (%d paths): decided by the lemma plus-absorbs-x instead' % len(rs))
             eb, sb = 3, 4
             for i, r in enumerate(rs):
                 S_, C_ = reg(r.value)
                 pre = '(assert (bvsle (bvshl %s (_ bv%d 64)) (bvmul (_ bv2 64) %s)))' % (ABS('c_fx'), sb, ABS('s_fx'))
                 d = '(bvsub (bvsub (bvsub S_fx C_fx) (bvsub s_fx c_fx)) x_fx)'
-                goal = '(and (bvsle (bvshl %s (_ bv%d 64)) (bvadd (bvmul (_ bv4 64) %s) (bvshl (bvmul (_ bv4 64) %s) (_ bv%d 64)))) (bvsle (bvshl %s (_ bv%d 64)) (bvmul (_ bv2 64) %s)))' % (
-                    ABS(d), sb, ABS('x_fx'), ABS('c_fx'), sb, ABS('C_fx'), sb, ABS('S_fx'))
+                # |defect| <= 8u|x| + 4u|c| + 8u^2|S|   (all scaled by 2^(2 sb));   |C| <= 2u|S|
+                goal = '(and (bvsle (bvshl %s (_ bv%d 64)) (bvadd (bvshl (bvadd (bvmul (_ bv8 64) %s) (bvmul (_ bv4 64) %s)) (_ bv%d 64)) (bvmul (_ bv8 64) %s))) (bvsle (bvshl %s (_ bv%d 64)) (bvmul (_ bv2 64) %s)))' % (
+                    ABS(d), 2 * sb, ABS('x_fx'), ABS('c_fx'), sb, ABS('S_fx'), ABS('C_fx'), sb, ABS('S_fx'))
                 for cu in itertools.product(range(2 ** eb - 1), repeat=2):
                     extra_jobs.append(('C08:register:plus-absorbs-x-first-order-in-x:F(%d,%d)' % (eb, sb) + ('' if i == 0 else ':path%d' % i),
                                        build(eb, sb, ['s', 'c', 'x'], {'S': S_, 'C': C_}, r.pc, pre + '\n(assert (not %s))' % goal, cube=dict(zip(['s', 'x'], cu))), 180, nm))
